@@ -531,6 +531,41 @@ func (g *Gen) specAssume(reach string, st *State, vars map[string]*SVal, text st
 	g.assume(reach, env.evalBool(x))
 }
 
+// promote rewrites a selection of a promoted field (x.F where F lives in an embedded struct) into the
+// explicit path x.Emb.F; nil when name is not a promoted field of t.
+func (e *Env) promote(x *ESel, t types.Type) *ESel {
+	obj, path, _ := types.LookupFieldOrMethod(t, true, e.pkgOf(t), x.Name)
+	if _, ok := obj.(*types.Var); !ok || len(path) < 2 {
+		return nil
+	}
+	cur := x.X
+	tt := t
+	for _, i := range path[:len(path)-1] {
+		st := structOf(derefType(tt))
+		if st == nil {
+			return nil
+		}
+		f := st.Field(i)
+		cur = &ESel{X: cur, Name: f.Name()}
+		tt = f.Type()
+	}
+	return &ESel{X: cur, Name: x.Name}
+}
+
+func derefType(t types.Type) types.Type {
+	if p, ok := t.Underlying().(*types.Pointer); ok {
+		return p.Elem()
+	}
+	return t
+}
+
+func (e *Env) pkgOf(t types.Type) *types.Package {
+	if n, ok := derefType(t).(*types.Named); ok && n.Obj() != nil && n.Obj().Pkg() != nil {
+		return n.Obj().Pkg()
+	}
+	return e.pkg
+}
+
 func (e *Env) sel(x *ESel) *SVal {
 	g := e.g
 	// package-qualified name?
@@ -564,6 +599,9 @@ func (e *Env) sel(x *ESel) *SVal {
 		}
 		idx, emb := fieldIndex(st, x.Name)
 		if idx < 0 {
+			if px := e.promote(x, v.T); px != nil {
+				return e.sel(px)
+			}
 			if m := e.methodOf(v.T, x.Name); m != nil {
 				return &SVal{T: m.Type(), K: KFunc, Clo: &Closure{Fn: m, Bindings: []*SVal{v}}, Term: "method"}
 			}
@@ -591,6 +629,9 @@ func (e *Env) sel(x *ESel) *SVal {
 		st := structOf(v.T)
 		idx, _ := fieldIndex(st, x.Name)
 		if idx < 0 {
+			if px := e.promote(x, v.T); px != nil {
+				return e.sel(px)
+			}
 			if m := e.methodOf(v.T, x.Name); m != nil {
 				return &SVal{T: m.Type(), K: KFunc, Clo: &Closure{Fn: m, Bindings: []*SVal{v}}, Term: "method"}
 			}
@@ -698,6 +739,10 @@ func (e *Env) index(x *EIndex) *SVal {
 				p := g.elemAddr(v.Term, idx, at.Elem())
 				return g.load(e.stateFor(v), p, at.Elem())
 			}
+		}
+	case KTuple:
+		if i.Const != nil && i.Const.IsInt64() && int(i.Const.Int64()) < len(v.Sub) {
+			return v.Sub[i.Const.Int64()]
 		}
 	case KMap:
 		mt := v.T.Underlying().(*types.Map)
